@@ -892,6 +892,10 @@ func (in *Interp) exec(g *Goroutine, fr *Frame, ins ssa.Instruction) {
 			in.goPanic(g, "nil", "nil pointer dereference (field "+x.X.Type().String()+")", nil)
 			return
 		}
+		if x.Field >= len(p.c.sub) {
+			// an environment object the executor stubs (xml.Encoder/Decoder, http.Client ...) has no modelled fields
+			in.unsupported("field access on a stubbed environment object of type %s", x.X.Type())
+		}
 		in.set(fr, x, Ptr{p.c.sub[x.Field]})
 	case *ssa.Index:
 		in.execIndex(g, fr, x)
